@@ -25,9 +25,34 @@ def seeded_section():
         out.append(f"| {sid} | {short(m.get('title',''), 160)} | {short(m.get('needs_to_manifest',''), 200)} | {'<br>'.join(cells) or 'not run yet'} |\n".replace("\n|", " |").replace("\n", " ") + "\n")
     out.append(f"\nDetected by the check of their own property (or a listed extra property): {det} of {n}.\n")
     return "".join(out)
+def property_table():
+    """| id | property theorems (files) | tie theorems | label | — counted from the Lean sources (`^theorem `)."""
+    import re
+    labels = json.load(open(os.path.join(ROOT, "docs", "design_parts", "labels.json")))
+    def count(path):
+        src = open(path).read()
+        src = re.sub(r"/-.*?-/", "", src, flags=re.S); src = re.sub(r"--[^\n]*", "", src)
+        return len(re.findall(r"^theorem\s", src, re.M))
+    rows = ["| id | property theorems (file: count) | regenerated-tie theorems (file: count) | label as built |", "|---|---|---|---|"]
+    tot_p = tot_t = 0
+    for k in range(1, 21):
+        pid = f"C{k:02d}"
+        cells = []
+        for sub in ("Properties", "Ties"):
+            d = os.path.join(ROOT, "lean", "S2Proofs", sub)
+            fs = sorted(glob.glob(os.path.join(d, pid + ".lean")) + glob.glob(os.path.join(d, pid + "_*.lean")))
+            items = [(os.path.basename(f)[:-5], count(f)) for f in fs]
+            n = sum(c for _, c in items)
+            if sub == "Properties": tot_p += n
+            else: tot_t += n
+            cells.append((f"**{n}** = " + ", ".join(f"{a} {c}" for a, c in items)) if items else "–")
+        rows.append(f"| {pid} | {cells[0]} | {cells[1]} | {labels.get(pid, '')} |")
+    rows.append(f"| all | **{tot_p}** | **{tot_t}** | |")
+    return "\n".join(rows)
 def main():
     parts = sorted(glob.glob(os.path.join(ROOT, "docs", "design_parts", "[0-8]*.md")))
     txt = "\n".join(open(p).read().rstrip() + "\n\n---------------------------------------------------------------------------\n" for p in parts)
+    txt = txt.replace("<<PROPERTY_TABLE>>", property_table())
     txt += "\n" + seeded_section()
     open(os.path.join(ROOT, "DESIGN.md"), "w").write(txt)
     print("wrote DESIGN.md", len(txt.splitlines()), "lines")
